@@ -8,7 +8,7 @@ Part B (fuzz only, TEST SUPPORT, not proof): mutation of valid certificates, CRL
 import re, subprocess, os
 from vlib import core
 from vlib.core import hexs
-from vlib.codec_common import der_len, tlv, der_uint, b128, mutate, compare
+from vlib.codec_common import der_len, tlv, der_uint, b128, mutate, compare, key_hints, sm2_pub_bytes
 
 CONSTRUCTED = (0x30, 0x31) + tuple(range(0xa0, 0xa8))
 
@@ -73,19 +73,23 @@ def gen_modelled(ctx):
     cases = []
     add = lambda line, cell: cases.append((line, cell))
 
-    def fam(op, valid, budget=40):
-        """valid objects + structure-aware mutations + random stream for one decoder op"""
+    def fam(op, valid, budget=40, hint=None):
+        """valid objects + structure-aware mutations + random stream for one decoder op;
+        hint(bytes) = extra tokens (curve-arithmetic hints for the key models)"""
         name = op.split()[0] + (":" + op.split()[1] if op.split()[0] in ("strD", "isstr") else "")
+        h = (lambda b: hint(b)) if hint else (lambda b: "")
         for v in valid:
-            add("%s %s" % (op, hexs(v)), name + ":valid")
+            add("%s %s%s" % (op, hexs(v), h(v)), name + ":valid")
             for kind, m in structured_mutations(r, v, budget * K):
-                add("%s %s" % (op, hexs(m)), name + ":" + kind)
+                add("%s %s%s" % (op, hexs(m), h(m)), name + ":" + kind)
         for _ in range(30 * K):
-            add("%s %s" % (op, hexs(r.bytes(r.range(0, 12)))), name + ":random-stream")
+            b = r.bytes(r.range(0, 12))
+            add("%s %s%s" % (op, hexs(b), h(b)), name + ":random-stream")
             # random stream that starts like the expected object
             if valid:
                 v = r.choice(valid)
-                add("%s %s" % (op, hexs(v[:r.range(1, min(4, len(v)))] + r.bytes(r.range(0, 20)))), name + ":random-after-header")
+                b = v[:r.range(1, min(4, len(v)))] + r.bytes(r.range(0, 20))
+                add("%s %s%s" % (op, hexs(b), h(b)), name + ":random-after-header")
 
     octs = [tlv(4, r.bytes(n)) for n in (0, 1, 5, 127, 128, 200, 256)]
     fam("typD 4", octs); fam("netD 4", octs); fam("anytD", octs); fam("anyD", octs)
@@ -124,7 +128,30 @@ def gen_modelled(ctx):
     sigs = [tlv(0x30, der_uint(int.from_bytes(r.bytes(32), "big")) + der_uint(int.from_bytes(r.bytes(32), "big"))) for _ in range(3)] + \
            [tlv(0x30, der_uint(1) + der_uint(2**256 - 1))]
     fam("sigD", sigs, 60)
+    # composite objects (models of coq/Codec/Pkcs.v, Pem.v)
+    import importlib.util, os
+    spec = importlib.util.spec_from_file_location("c14_run", os.path.join(core.ROOT, "props", "C14", "run.py"))
+    c14 = importlib.util.module_from_spec(spec); spec.loader.exec_module(c14)
+    salt = r.bytes(8)
+    fam("pkalgD", [tlv(0x30, c14.oid_der(10) + c14.oid_der(1)), tlv(0x30, c14.oid_der(11) + b"\x05\x00")], 20)
+    fam("encalgD", [tlv(0x30, c14.oid_der(20) + tlv(4, r.bytes(16)))], 20)
+    fam("kdfpD", [c14.kdf_params(salt, 3, 16, 30), c14.kdf_params(salt, 65536)], 30)
+    fam("p8eD", [c14.p8e_der(salt, 3, 16, 30, 20, r.bytes(16), r.bytes(48)), c14.p8e_der(salt, 2, None, None, 20, r.bytes(16), r.bytes(16))], 60)
+    fam("ctD", [tlv(0x30, der_uint(int.from_bytes(r.bytes(32), "big")) + der_uint(int.from_bytes(r.bytes(32), "big")) + tlv(4, r.bytes(32)) + tlv(4, r.bytes(n))) for n in (1, 255)], 50)
+    d = r.bytes(32)
+    xy = sm2_pub_bytes(d)
+    fam("pubiD", [tlv(0x30, tlv(0x30, c14.oid_der(10) + c14.oid_der(1)) + tlv(3, b"\0\x04" + xy))], 50, hint=key_hints)
+    fam("privD", [c14.priv_der(d)], 60, hint=key_hints)
+    fam("p8D", [c14.p8_der(d), c14.p8_der(d, attrs=b"\x30\x03\x02\x01\x05")], 60, hint=key_hints)
     import base64
+    for n in (1, 48, 100):
+        data = r.bytes(n)
+        b64 = base64.b64encode(data)
+        text = b"-----BEGIN X-----\n" + b"".join(b64[i:i + 64] + b"\n" for i in range(0, len(b64), 64)) + b"-----END X-----\n"
+        for cap in (n + 8, n, n - 1, 0):
+            add("pemR 58 %d %s" % (cap, hexs(text)), "pemR:capacity%s" % (">=len" if cap >= n else "<len"))
+            for kind, m in [("noise", mutate(r, text, r.range(1, 3))) for _ in range(10 * K)] + [("truncate", text[:c]) for c in range(0, len(text), max(1, len(text) // 10))]:
+                add("pemR 58 %d %s" % (cap, hexs(m)), "pemR:" + kind)
     for _ in range(40 * K):
         t = r.bytes(r.range(0, 40)).hex().encode()
         add("hexD %s" % hexs(mutate(r, t, r.below(3))), "hexD:mutated")
@@ -266,6 +293,11 @@ def gen_capacity(ctx):
         for maxlen in (0, 8, 21, 22, 32, 64, 512, 528):
             add("cap tlsexts %d %d" % (rep, maxlen), "cap:tlsexts:%s" % ("fits" if 22 * rep + 8 <= maxlen else "exceeds"),
                 (lambda o, rp=rep, mx=maxlen: ("OVER-CAPACITY" not in o) and (not o.startswith("FAULT")) and (o == "r=1 len=22" if (rp == 1 and mx >= 32) else True) and (o.startswith("r=-1") if 22 * rp > mx else True)))
+    for v in (12, 13):
+        for n in (1, 2, 3, 4, 5, 6, 8):
+            for we in (0, 1):
+                add("cap tlscerts %d %d %d" % (v, n, we), "cap:tlscerts:tls%d" % v,
+                    (lambda o: (lambda m: m is not None and ((int(m.group(1)) <= 2048 and m.group(2) == "1 len=" + m.group(1)) or (int(m.group(1)) > 2048 and m.group(2) == "-1")))(re.fullmatch(r"total=(\d+) r=(-1|1 len=\d+)", o))))
     for max_ in (1, 3, 4):
         for cnt in (0, 1, max_ - 1, max_, max_ + 1, max_ + 2, 3 * max_):
             if cnt >= 0:
@@ -403,7 +435,8 @@ def replay(path):
 
 def finish(ctx, na, nb, nc=0):
     modelled = ["lenD", "typD", "netD", "anytD", "anyD", "boolD", "intD", "i32D", "bstrD", "boctD", "bitsD", "nullD", "oidD", "oidderD",
-                "seqintD", "strD/isstr utf8|prn|ia5", "timeD", "sigD", "hexD", "b64blkD", "b64D"]
+                "seqintD", "strD/isstr utf8|prn|ia5", "timeD", "sigD", "hexD", "b64blkD", "b64D",
+                "pkalgD", "encalgD", "kdfpD", "p8eD", "ctD", "pubiD", "privD", "p8D", "pemR"]
     fuzz_only = ["x509_cert_from_der/print/get_details/check/verify_by_ca_cert", "x509_certs_get_count/print/verify", "x509_crl_from_der/print/check/find_revoked",
                  "x509_req_from_der/print/verify", "cms_print/content_info_from_der/verify/decrypt", "sm2_private_key_info_from_der/print, pkcs8_enced_private_key_info_from_der/print, decrypt_from_der",
                  "sm2_private_key_from_der/print", "sm2_public_key_info_from_der/print", "sm2_ciphertext_from_der/print, sm2_decrypt", "sm2_signature_print, sm2_verify",
@@ -416,10 +449,10 @@ def finish(ctx, na, nb, nc=0):
     ]
     return ctx.finish(level="proof",
                       rule="part A: per modelled decoder, valid objects + truncation at (sampled) every byte + edits of every TLV length octet / tag + insertions + byte noise + random streams + element counts at capacity-1/capacity/capacity+1; a cell = (op, mutation class, ok|ERR|ABSENT|FAULT) on which implementation and Fixed model agreed.  part B: per fuzz kind and seed object the same mutation classes (TLS records re-framed as tls_record_recv guarantees); a cell = (kind, seed, mutation class, ok|err) that ran without a fault",
-                      trusted=core.TRUSTED_COMMON + ["Coq files: Codec/Der.v Hex.v Base64.v Time.v (models), Codec/DerProofs.v SafetyProofs.v HexProofs.v Base64Proofs.v Base64Safety.v TimeProofs.v, Props/Properties_C06.v",
+                      trusted=core.TRUSTED_COMMON + ["Coq files: Codec/Der.v Hex.v Base64.v Time.v Pkcs.v Pem.v (models), Codec/DerProofs.v SafetyProofs.v HexProofs.v Base64Proofs.v Base64Safety.v TimeProofs.v PkcsProofs.v PkcsOpen.v PemProofs.v, Props/Properties_C06.v",
                                                      "props/C14/harness.c + props/C14/driver.ml (modelled ops), props/C06/harness.c (fuzz-only ops), vlib/codec_common.py"],
                       extra={"modelled_ops": modelled, "fuzz_only_ops": fuzz_only, "modelled_cases": na, "fuzz_only_cases": nb, "capacity_cases": nc,
                              "capacity_ops": ["cms_recipient_info_decrypt_from_der(maxlen)", "cms_enveloped_data_decrypt_from_der (key[32])", "sm2_decrypt (exact plaintext buffer)",
                                               "sm2_decrypt_update / sm2_encrypt_update (sums against 366 / 255)", "x509_cert_from_pem / x509_certs_from_pem / x509_req_from_pem / cms_from_pem (maxlen)",
-                                              "tls_authorities_from_certs(maxlen)", "tls_process_client_hello_exts(maxlen)", "cms_digest_algors_from_der(max)", "x509_ext_key_usage_from_der(max_cnt)"],
+                                              "tls_authorities_from_certs(maxlen)", "tls_process_client_hello_exts(maxlen)", "cms_digest_algors_from_der(max)", "x509_ext_key_usage_from_der(max_cnt)", "tls_record_get_handshake_certificate / tls13_process_certificate_list (TLS_MAX_CERTIFICATES_SIZE)"],
                              "fuzz_only_note": "fuzz_only_ops are test support (mutation fuzzing under ASan/UBSan), not covered by any theorem"})
